@@ -43,6 +43,7 @@ type scenario struct {
 	Traffic   bool     `json:"traffic,omitempty"` // assign: the router runs and routes datagrams to still free addresses while NICs join
 	EarlyBind bool     `json:"earlyBind,omitempty"` // a wildcard port-0 bind (closed again) before the host is attached to the router
 	NilIPPort bool     `json:"nilIPPort,omitempty"` // binds to the wildcard address are written as &net.UDPAddr{Port: p} (nil IP)
+	MoreFails int      `json:"moreFails,omitempty"` // nearFull: this many further port 0 binds fail against the full range (1000 probes each) before the victim is closed
 	Victim   int       `json:"victim,omitempty"` // nearFull: afterwards the range is filled completely (a port 0 bind fails), the wildcard socket on this port is closed, and a port 0 bind must get exactly this port
 	NearFull int       `json:"nearFull"` // leave only this many ephemeral ports free before the workers start (0 = off)
 }
@@ -107,6 +108,7 @@ func gen(r *harn.Rng, tier string) interface{} {
 	if !sc.Sweep && r.Bool(0.03) {
 		sc.NearFull = r.Pick(2, 3, 4, 6)
 		sc.Victim = r.Pick(0, 5999, 5999, 5000, 5998, 5432)
+		sc.MoreFails = r.Pick(0, 0, 1, 3, 62, 63, 64, 65, 66)
 		nw = r.Pick(2, 3)
 	}
 	ips := append([]string{"", "0.0.0.0", "127.0.0.1", "10.0.0.99"}, sc.HostIPs...)
@@ -769,6 +771,12 @@ func runBind(env *simrt.Env, sc *scenario) {
 			env.Fail("C13/port-zero-bound-beyond-range", "more than 1000 wildcard sockets were bound with port 0 in 5000-5999")
 			return
 		}
+		for k := 0; k < sc.MoreFails; k++ {
+			if c, err := host.ListenUDP("udp", &net.UDPAddr{IP: net.IPv4zero, Port: 0}); err == nil {
+				env.Fail("C13/address-in-use-bound", "every port of 5000-5999 is taken, yet a port 0 bind on the wildcard address received port %d", c.LocalAddr().(*net.UDPAddr).Port)
+				return
+			}
+		}
 		victim := own[sc.Victim]
 		if victim == nil {
 			for _, sk := range own {
@@ -1047,5 +1055,10 @@ func TestSim(t *testing.T) {
 	harn.Main(t, &harn.Spec{
 		ID: "C13", Gen: gen, New: func() interface{} { return &scenario{} }, Run: run, Post: post,
 		Shrink: shrinkSc, NonTrivial: nonTrivial,
+		Knobs: func(r *harn.Rng, sci interface{}, cfg *simrt.Config) {
+			if sc := sci.(*scenario); sc.NearFull > 0 && sc.Victim != 0 {
+				cfg.MaxSteps = 1500000 // a thousand binds before the workers start, up to a hundred more afterwards
+			}
+		},
 	})
 }
